@@ -132,8 +132,10 @@ CLAIMS = {
               "frontier head), with grammar order on at most one of them. C06_model_iterator_is_iter links the byte-level LR model's "
               "iterator; Lex.sortedOk certifies the sorted_terminals list of every state of the real table (the old packed key prio*1000+len "
               "made a 1000-byte string outrank the next priority: repaired in /repo, the model key is the pair (prio, len) and the "
-              "`< 1000` hypothesis is gone, C06_long_string_does_not_outrank). PARTIAL: the final grammar-order step (first = earliest in "
-              "the grammar) is decided by oracle + correspondence. Tie A: tokens shifted by the real LR parser vs model; LR and GLR token "
+              "`< 1000` hypothesis is gone, C06_long_string_does_not_outrank). The final grammar-order step is a theorem too: "
+              "C06_iterator_order (the iterator yields in strictly increasing grammar index), C06_lr_picks_first_in_grammar (iff: the LR "
+              "token is exactly the survivor passing the longest filter with the lowest grammar index), "
+              "C06_glr_grammar_order_is_first (GLR with grammar order on keeps exactly that token). Tie A: tokens shifted by the real LR parser vs model; LR and GLR token "
               "sequences vs the documented rule written as an independent python specification, all 4 (LR) / 8 (GLR) switch "
               "combinations. One defect found by the oracle is repaired by a fix: commit (priority-group end flag)."),
         design_ref="5/C06",
